@@ -9,16 +9,17 @@ def presented (l : Line) : _root_.C04.Presented :=
 
 def tokOf (l : Line) (label : String) (refresh : Bool) : _root_.C08.Tok :=
   { label := label, client := str l "client", subject := str l "sub", audience := list l "aud", issuer := str l "iss",
-    refresh := refresh, grant := str l "grant", exp := int l (if refresh then "rtexp" else "exp") }
+    refresh := refresh, jwt := bool l "jwt" && !refresh, grant := str l "grant", exp := int l (if refresh then "rtexp" else "exp") }
 
 /-- the observable events of a line (a token response hands out an access token and possibly a refresh token) -/
 def evsOf (l : Line) : List _root_.C08.Ev :=
   match str l "op" with
   | "issue" => [.issued (tokOf l (str l "label") false)] ++ (if str l "rtlabel" != "" then [.issued (tokOf l (str l "rtlabel") true)] else [])
   | "expire" => [.expired (str l "label")]
-  | "userinfo" => [.userinfo (str l "iss") (str l "tok") (nat l "o.status") (opt l "o.sub")]
+  | "userinfo" => [.userinfo (str l "iss") (str l "tok") (nat l "o.status") (opt l "o.sub") ((opt l "o.sub").isSome || list l "o.claims" != [])]
   | "introspect" => [.introspect (str l "iss") (presented l) (str l "tok") (nat l "o.status") (bool l "o.active") (list l "o.members")]
-  | "revoke" => [.revoke (str l "iss") (presented l) (str l "tok") (nat l "o.status") (bool l "o.performed") (str l "fault" != "") (!(has l "o.effect") || bool l "o.effect")]
+  | "revoke" => [.revoke (str l "iss") (presented l) (str l "tok") (nat l "o.status") (bool l "o.performed") (str l "fault" != "") (!(has l "o.effect") || bool l "o.effect")
+                  (!(has l "o.usable") || bool l "o.usable")]
   | "endsession" => [.endSession (str l "iss") (str l "sub") (str l "client") (nat l "o.status") (bool l "o.terminated")]
   | "exchange" => [.exchange (str l "iss") (str l "tok") (bool l "o.success") (has l "atok") (str l "atok")]
   | "refresh" => [.refresh (str l "iss") (str l "tok") (bool l "o.success") (bool l "o.rotated")]
@@ -26,7 +27,7 @@ def evsOf (l : Line) : List _root_.C08.Ev :=
 
 def monStep (m : _root_.C08.MonState) (l : Line) : _root_.C08.MonState × Option String :=
   if str l "op" == "reset" then
-    ({ base := { issuer := str l "issuer", clients := Drv.Flow.parseClients l, jwtMaxAgeIAT := 3600 * Go.second, jwtOffset := Go.second } }, none)
+    ({ base := { issuer := str l "issuer", clients := Drv.Flow.parseClients l, jwtMaxAgeIAT := 3600 * Go.second, jwtOffset := Go.second }, flat := bool l "flat" }, none)
   else if str l "obs" == "panic" then (m, some "panic")
   else
     let now0 := int l "now0"
